@@ -24,6 +24,7 @@ func init() {
 		// a directory holds each name once (the name/link co-update discipline of C04.S2): a stale slot left by a
 		// replaced name is listed next to the new one
 		ruleS2(c, "C13.P10")
+		ruleP11(c, "C13.P11")
 		ruleKind(c, "C13.P7")
 		ruleP8(c, "C13.P8")
 	}
@@ -553,5 +554,130 @@ func ruleP8(c *Ctx, id string) {
 	})
 	if n == 0 {
 		R.Pass(id, "handlers|BAD_COOKIE never answered", "?", "no handler refuses cookies", "nothing to judge")
+	}
+}
+
+// ruleP11: what the scanner enumerates reaches the client.  (a) the callback a
+// lister hands to the scanner links every entry it is given into the list, on
+// every path - the callback cannot tell the scanner to stop, so an entry it
+// drops is lost while the scanner goes on to report end-of-directory; (b) the
+// lister returns that list together with the scanner's own eof answer; (c) the
+// handler puts the lister's result into the reply on every path to its
+// success commit - also when the page has no entry: then the eof flag is all
+// the client gets, and without it the enumeration never ends.
+func ruleP11(c *Ctx, id string) {
+	P, R := c.P, c.R
+	R.Rule(id, "the listing reaches the client: the listers' callbacks link every entry they are handed on every path; the listers return that list with the scanner's eof; READDIR and READDIRPLUS store the lister's result in the reply on every path to the commit", 6)
+	for _, pr := range []struct{ lister, scanner, handler string }{
+		{"nfs.Ls3", "dir.Apply", "nfs.(*Nfs).NFSPROC3_READDIRPLUS"},
+		{"nfs.Readdir3", "dir.ApplyEnts", "nfs.(*Nfs).NFSPROC3_READDIR"},
+	} {
+		ls := c.fn(id, pr.lister)
+		sc := c.fn(id, pr.scanner)
+		h := c.fn(id, pr.handler)
+		if ls == nil || sc == nil || h == nil {
+			continue
+		}
+		R.Analysed[FuncName(ls)] = true
+		// (a) the callback
+		var scan *ssa.Call
+		for _, lsc := range scopesOf(ls) {
+			for _, in := range P.CallsIn(lsc.Fn, funcIs(sc)) {
+				if cl, ok := in.(*ssa.Call); ok {
+					scan = cl
+				}
+			}
+		}
+		if scan == nil {
+			R.Fail(id, pr.lister+"|scans", P.Pos(ls.Pos()), "the lister calls the scanner", "no call of "+pr.scanner)
+			continue
+		}
+		var cb *ssa.Function
+		args := scan.Call.Args
+		switch a := args[len(args)-1].(type) {
+		case *ssa.MakeClosure:
+			cb, _ = a.Fn.(*ssa.Function)
+		case *ssa.Function:
+			cb = a
+		}
+		if cb == nil || cb.Blocks == nil {
+			R.Undecided(id, pr.lister+"|callback", P.Pos(scan.Pos()), "the callback handed to the scanner is a function literal", "not recognised")
+			continue
+		}
+		// the entry object made for this call, and the stores that link it: into a captured list variable or
+		// into the Nextentry field of the previous entry
+		isLink := func(in ssa.Instruction) bool {
+			st, ok := in.(*ssa.Store)
+			if !ok {
+				return false
+			}
+			if _, isNew := stripConv(st.Val).(*ssa.Alloc); !isNew {
+				return false
+			}
+			if _, isFV := st.Addr.(*ssa.FreeVar); isFV {
+				return true
+			}
+			if fa, isFA := st.Addr.(*ssa.FieldAddr); isFA {
+				if n, f, _ := FieldOf(fa); n != nil && f == "Nextentry" {
+					return true
+				}
+			}
+			return false
+		}
+		entry := cb.Blocks[0].Instrs[0]
+		always := isLink(entry) || MustAfter(cb, isLink, nil)(entry)
+		R.Check(always, id, pr.lister+"|callback links every entry", P.Pos(cb.Pos()), "every path of the callback stores the new entry into the list (head variable or the previous entry's Nextentry)", "must-follow from the callback's entry", "a path of the callback returns without linking the entry it was handed: the scanner cannot be told to stop, goes on to the end and reports end-of-directory - the dropped entries are never returned")
+		// (b) the result: Entries from the list head, Eof from the scanner's answer
+		okEof, okEnt := false, false
+		for _, b := range ls.Blocks {
+			for _, in := range b.Instrs {
+				st, ok := in.(*ssa.Store)
+				if !ok {
+					continue
+				}
+				n, f, _ := FieldOf(st.Addr)
+				if n == nil {
+					continue
+				}
+				switch f {
+				case "Eof":
+					if stripConv(st.Val) == ssa.Value(scan) {
+						okEof = true
+					}
+				case "Entries":
+					okEnt = true
+				}
+			}
+		}
+		R.Check(okEof && okEnt, id, pr.lister+"|returns the list and the scanner's eof", P.Pos(scan.Pos()), "the result's Eof is the scanner's answer and its Entries the list built by the callback", "stores of both fields", "the lister reports another end-of-directory than the scanner found")
+		// (c) the handler
+		R.Analysed[FuncName(h)] = true
+		for _, hsc := range scopesOf(h) {
+			for _, in := range P.CallsIn(hsc.Fn, funcIs(ls)) {
+				lc, ok := in.(*ssa.Call)
+				if !ok {
+					continue
+				}
+				isPut := func(x ssa.Instruction) bool {
+					st, ok := x.(*ssa.Store)
+					if !ok || stripConv(st.Val) != ssa.Value(lc) {
+						return false
+					}
+					return strings.HasSuffix(fieldPath(st.Addr), "Reply")
+				}
+				nCommit := 0
+				okAll := true
+				for _, cm := range P.CallsIn(hsc.Fn, func(f *ssa.Function) bool { return c.V.Terminators[f] == "commit" || (c.V.commitReply != nil && f == c.V.commitReply) }) {
+					if !reachableFrom(lc, cm) {
+						continue
+					}
+					nCommit++
+					if !MustBefore(hsc.Fn, isPut)(cm) {
+						okAll = false
+					}
+				}
+				R.Check(okAll && nCommit > 0, id, pr.handler[strings.LastIndex(pr.handler, ".")+1:]+"|listing stored in the reply on every path", P.Pos(lc.Pos()), "every path from the lister's call to the commit stores its result in Resok.Reply", fmt.Sprintf("must-precede at %d commit(s)", nCommit), "a path commits and answers NFS3_OK without the listing (for instance when the page has no entry): the end-of-directory flag is lost, the client asks again with the same cookie for ever")
+			}
+		}
 	}
 }
